@@ -10,14 +10,24 @@ Tie to /repo:
       the flat real space [re, im], "C = R^2"), built with the real constructors; op(x), op.derivative(x)(d), is_linear/domain/range of both are
       compared EXACTLY with the Lean model (Model/Deriv.lean through Drivers/C06.lean).  All
       data are small integers and a magnitude bound is tracked so that float64 is exact.
-  (T) the (f, f') table of odl/ufunc_ops/ufunc_ops.py::derivative_factory is regenerated into
-      Gen/UfuncDeriv.lean on every run (tools/extract/ufunc_deriv.py) and each pair is proved
-      against Mathlib's derivatives in Props/C06.lean.
+      Complex scalars (OperatorLeft/RightScalarMult with a Gaussian-integer scalar on a complex
+      range/domain) are in the model as real 2x2 blocks.  A malformed stream corrupts one node so
+      that a constructor must raise and compares with the model's constructor checks (err:wf).
+  (T) BOTH (f, f') tables of odl/ufunc_ops/ufunc_ops.py — derivative_factory (ufunc operators)
+      and gradient_factory (ufunc functionals on a field) — are regenerated into
+      Gen/UfuncDeriv.lean on every run (tools/extract/ufunc_deriv.py); each pair is proved against
+      Mathlib's derivatives in Props/C06.lean, and the driver evaluates the generated tables at
+      Float and the harness compares the VALUES with op(x), op.derivative(x) / f(t),
+      f.derivative(t) of the real code (rel. 1e-13).
 Oracle (independent of the model, on the real code): central differences at h = 2^-k,
-k = 4..14, plain and Richardson-extrapolated, with a rate check; derivative(x).is_linear,
+k = 4..14: component-wise agreement with the Richardson-extrapolated estimate (rel. 1e-7) and
+decay of the plain central-difference error like h^2; derivative(x).is_linear,
 domain, range; linear operators are their own derivative.  Applied to the random trees (also
-with transcendental ufunc leaves) and to a zoo with every operator class that implements
-`derivative` (found by introspection, built from a constructor table).
+with transcendental ufunc leaves) and to a zoo with every operator class that defines
+`derivative` (found by introspection, built from a constructor table), the functionals (every
+module-level Functional subclass must be instantiated or listed as having no gradient) and the
+ufunc functionals `odl.ufunc_ops.<name>()` on RealNumbers() for every ufunc.  NotImplementedError
+from `derivative` counts as "no derivative provided" only where the zoo entry says so.
 """
 import math
 import random as _random
@@ -41,14 +51,18 @@ ASSUMPTIONS = ['model world: spaces rn(n) and (nested) product spaces of them, f
                'PowerOperator with integer exponent >= 1',
                'Frechet derivative of the polynomial world is stated algebraically: coefficient of eps '
                'in op(x + eps d) over the dual numbers; floating-point rounding is outside the model',
-               'complex spaces: cn(n) is the flat real space [re, im]; only real scalars and no point-wise '
-               'products with complex vectors in the modelled trees (Impl.cwf)',
+               'complex spaces: cn(n) is the flat real space [re, im]; complex SCALARS are modelled (2x2 '
+               'blocks), point-wise products with complex vectors/values and complex-valued functionals '
+               'are not (Impl.cwf); the merging of nested scalar multiplications is modelled for real '
+               'scalars only (semantically neutral)',
                'operator classes without an executable model (NormOperator, DistOperator, ComplexModulus, '
                'PointwiseNorm, ufunc operators (their derivative TABLE is extracted and proved; values are '
                'not executed in the model), finite differences, ResizingOperator, functionals other than '
                'L2NormSquared/InnerProduct) are checked by the central-difference oracle on sampled inputs '
-               'only; the analytic theorem C06.deriv_sound covers them as opaque leaves under the leaf '
-               'contract LeafOK (single space, dom = ran)',
+               'only.  The theorems named ..._of_leaf_hyps are about a separately transcribed rule set '
+               '(endomorphism trees on one algebra), conditional on leaf hypotheses, and executed by nothing',
+               'Fn.float/Expr.evalF (executed, compared with the code) and Fn.real/Expr.eval (theorems) are '
+               'two clause-by-clause identical readings of the generated tables at Float and at R',
                'exempt by the property statement: LinDeformFixedTempl/LinDeformFixedDisp (continuum '
                'derivative by design); NumericalGradient.derivative (a numerical estimate by design) is '
                'checked with a loose tolerance']
@@ -324,10 +338,12 @@ def tokens(n):
     if k == 'normsq':
         return ['normsq', str(dim(S))]
     if k == 'sum':
-        return (['sum', str(dim(T)) if n['tr'] else '-', str(dim(S)) if n['td'] else '-'] +
+        return (['sum', str(n.get('tr_bad', dim(T))) if n['tr'] else '-',
+                 str(n.get('td_bad', dim(S))) if n['td'] else '-'] +
                 tokens(n['l']) + tokens(n['r']))
     if k == 'comp':
-        return ['comp', str(dim(n['l']['dom'])) if n['tmp'] else '-'] + tokens(n['l']) + tokens(n['r'])
+        return (['comp', str(n.get('tmp_bad', dim(n['l']['dom']))) if n['tmp'] else '-'] +
+                tokens(n['l']) + tokens(n['r']))
     if k in ('lscal', 'rscal'):
         return [k, fs(n['s'])] + tokens(n['op'])
     if k == 'clscal':
@@ -397,12 +413,13 @@ def build(n):
         import odl.ufunc_ops as uo
         return getattr(uo, n['name'])(mk_space(S))
     if k == 'sum':
-        tr = mk_space(T).element() if n['tr'] else None
-        td = mk_space(S).element() if n['td'] else None
+        tr = mk_space(n.get('tr_bad', T)).element() if n['tr'] else None
+        td = mk_space(n.get('td_bad', S)).element() if n['td'] else None
         return odl.OperatorSum(build(n['l']), build(n['r']), tr, td)
     if k == 'comp':
         left, right = build(n['l']), build(n['r'])
-        tmp = left.domain.element() if n['tmp'] else None
+        tmp = (mk_space(n['tmp_bad']).element() if 'tmp_bad' in n else left.domain.element()) \
+            if n['tmp'] else None
         return odl.OperatorComp(left, right, tmp)
     if k == 'lscal':
         return odl.OperatorLeftScalarMult(build(n['op']), float(n['s']))
@@ -580,8 +597,14 @@ def gen_case(rng, depth):
 # ---------------------------------------------------------------------------
 # the oracle: central differences on the real code
 
-def cd_check(op, x, d, Dd, tol=1e-6, ks=range(4, 15), rate=True):
-    """None if Dd agrees with the central differences of op at x in direction d, else a string."""
+def cd_check(op, x, d, Dd, tol=1e-7, ks=range(4, 15), rate=True):
+    """None if Dd agrees with the central differences of op at x in direction d, else a string.
+
+    Value test: COMPONENT-WISE against the Richardson-extrapolated estimate (4 CD(h/2) - CD(h))/3
+    (the extrapolation step with the smallest sup error): |R_c - D_c| <= tol * max(|D_c|, |R_c|)
+    + 1e-10 * |op(x)|_inf (round-off floor of a difference quotient).
+    Decay test: above the noise floor the errors |CD(h) - D| must decrease with h: at most one
+    successive ratio below 1.5, and the two finest ones at least 2.5 (a central difference gives 4)."""
     Dd = flat(Dd)
     cds = []
     for k in ks:
@@ -591,30 +614,46 @@ def cd_check(op, x, d, Dd, tol=1e-6, ks=range(4, 15), rate=True):
         cds.append((yp - ym) / (2 * h))
     if not all(np.all(np.isfinite(c)) for c in cds) or not np.all(np.isfinite(Dd)):
         return 'non-finite values in derivative / central differences'
+    if any(c.shape != Dd.shape for c in cds):
+        return 'derivative(x)(d) has shape {} but op values have shape {}'.format(Dd.shape, cds[0].shape)
+    if not Dd.size:
+        return None
     ks = list(ks)
-    scale = max([float(np.max(np.abs(Dd))) if Dd.size else 0.0] +
-                [float(np.max(np.abs(c))) if c.size else 0.0 for c in cds])
-    vscale = max(float(np.max(np.abs(flat(op(x))))) if Dd.size else 0.0, 1.0)
-    errs = [float(np.max(np.abs(c - Dd))) if Dd.size else 0.0 for c in cds]
-    rich = [float(np.max(np.abs((4 * cds[i + 1] - cds[i]) / 3 - Dd))) if Dd.size else 0.0
-            for i in range(len(cds) - 1)]
-    best = min(errs + rich)
-    if best > tol * scale + 1e-9 * vscale:
-        i = int(np.argmin(errs))
-        return ('derivative(x)(d) differs from the central differences: best error {:.3e} '
-                '(scale {:.3e}); derivative {} vs central difference at h=2^-{} {}'.format(
-                    best, scale, np.array2string(Dd[:6], precision=8), ks[i],
-                    np.array2string(cds[i][:6], precision=8)))
-    # rate: in the asymptotic regime above the noise floor the error must shrink ~ h^2
+    scale = max([float(np.max(np.abs(Dd)))] + [float(np.max(np.abs(c))) for c in cds])
+    vscale = max(float(np.max(np.abs(flat(op(x))))), 1.0)
+    errs = [float(np.max(np.abs(c - Dd))) for c in cds]
+    rich = [(4 * cds[i + 1] - cds[i]) / 3 for i in range(len(cds) - 1)]
+    rerr = [float(np.max(np.abs(r - Dd))) for r in rich]
+    i = int(np.argmin(rerr))
+    R = rich[i]
+    comp_tol = tol * np.maximum(np.abs(Dd), np.abs(R)) + 1e-10 * vscale
+    bad = np.abs(R - Dd) > comp_tol
+    if np.any(bad):
+        c = int(np.argmax(np.abs(R - Dd) - comp_tol))
+        return ('derivative(x)(d) differs from the central differences: entry {} is {!r}, Richardson-'
+                'extrapolated central difference (h=2^-{}, 2^-{}) gives {!r} (error {:.3e}, allowed {:.3e}); '
+                'derivative {} vs extrapolation {}'.format(
+                    c, float(Dd[c]), ks[i], ks[i + 1], float(R[c]), float(abs(R[c] - Dd[c])),
+                    float(comp_tol[c]), np.array2string(Dd[:6], precision=8),
+                    np.array2string(R[:6], precision=8)))
+    # decay: in the regime above the noise floor the error must shrink ~ h^2
     elig = []
-    for i in range(len(errs) - 1):
-        noise = 1e-15 * vscale * 2.0 ** ks[i + 1] + 1e-14 * scale
-        if errs[i + 1] > 1e4 * noise and errs[i] < 0.02 * scale:
-            elig.append(errs[i] / errs[i + 1])
-    if rate and len(elig) >= 2 and elig[-1] < 2.0 and elig[-2] < 2.0:
-        return ('central-difference error does not shrink at the expected rate: successive '
-                'error ratios {} (expected about 4)'.format(['{:.2f}'.format(r) for r in elig[-4:]]))
+    for q in range(len(errs) - 1):
+        noise = 1e-15 * vscale * 2.0 ** ks[q + 1] + 1e-14 * scale
+        if errs[q + 1] > 1e4 * noise and errs[q] < 0.05 * scale:
+            elig.append(errs[q] / errs[q + 1])
+    if rate and elig:
+        slow = [r for r in elig if r < 1.5]
+        tail = elig[-2:]
+        if len(slow) > 1 or any(r < 2.5 for r in tail):
+            return ('central-difference error does not decay as h^2: successive error ratios {} '
+                    '(expected about 4)'.format(['{:.2f}'.format(r) for r in elig]))
     return None
+
+
+def is_field(sp):
+    import odl
+    return isinstance(sp, odl.set.sets.Field)
 
 
 def space_dim(sp):
@@ -626,14 +665,23 @@ def space_dim(sp):
     return int(sp.size) * (2 if getattr(sp, 'is_complex', False) else 1)
 
 
-def oracle_on(op, x, d, exact_linear=True, tol=1e-6, rate=True):
+NOT_PROVIDED = ['<no derivative provided: NotImplementedError>']
+
+
+def oracle_on(op, x, d, exact_linear=True, tol=1e-7, rate=True, allow_notimpl=False):
     """All oracle checks of the property for one operator / base point / direction.
     Returns (problems, D, Dd)."""
     problems = []
     try:
         D = op.derivative(x)
+    except NotImplementedError as e:
+        if allow_notimpl:
+            return NOT_PROVIDED, None, None
+        return ['derivative(x) raised {}: {}'.format(type(e).__name__, str(e)[:200])], None, None
     except Exception as e:  # noqa
         return ['derivative(x) raised {}: {}'.format(type(e).__name__, str(e)[:200])], None, None
+    if not hasattr(D, 'is_linear') or not callable(D):
+        return ['derivative(x) returned {!r} ({}), not an operator'.format(D, type(D).__name__)[:300]], None, None
     try:
         if not D.is_linear:
             problems.append('derivative(x).is_linear is False')
@@ -719,6 +767,7 @@ def run_tree_case(c):
     try:
         val = flat(op(x))
         impl = {'lin': int(bool(op.is_linear)), 'dom': space_dim(op.domain), 'ran': space_dim(op.range),
+                'fld': int(is_field(op.range)),
                 'val': [core.frac(v) for v in val.tolist()]}
     except Exception as e:  # noqa
         return line, 'err:call {}: {}'.format(type(e).__name__, str(e)[:160]), \
@@ -727,7 +776,7 @@ def run_tree_case(c):
         return line, 'err:deriv ' + '; '.join(problems)[:200], problems, op
     try:
         impl.update({'dlin': int(bool(D.is_linear)), 'ddom': space_dim(D.domain),
-                     'dran': space_dim(D.range),
+                     'dran': space_dim(D.range), 'dfld': int(is_field(D.range)),
                      'dval': [core.frac(v) for v in flat(Dd).tolist()]})
     except Exception as e:  # noqa
         return line, 'err:deriv-value {}: {}'.format(type(e).__name__, str(e)[:160]), problems, op
@@ -749,10 +798,10 @@ def compare_tree(ctx, c, impl, ans):
         ctx.disagree(desc, 'ok', ans[:300])
         return
     f = dict(t.split('=', 1) for t in ans.split()[1:])
-    model = {'lin': int(f['lin']), 'dom': int(f['dom']), 'ran': int(f['ran']),
+    model = {'lin': int(f['lin']), 'dom': int(f['dom']), 'ran': int(f['ran']), 'fld': int(f['fld']),
              'val': core.pfl(f['val']), 'dlin': int(f['dlin']), 'ddom': int(f['ddom']),
-             'dran': int(f['dran']), 'dval': core.pfl(f['dval'])}
-    for key in ('lin', 'dom', 'ran', 'val', 'dlin', 'ddom', 'dran', 'dval'):
+             'dran': int(f['dran']), 'dfld': int(f['dfld']), 'dval': core.pfl(f['dval'])}
+    for key in ('lin', 'dom', 'ran', 'fld', 'val', 'dlin', 'ddom', 'dran', 'dfld', 'dval'):
         if impl[key] != model[key]:
             ctx.disagree(desc, '{}={}'.format(key, [str(v) for v in impl[key]] if isinstance(impl[key], list) else impl[key]),
                          '{}={}'.format(key, [str(v) for v in model[key]] if isinstance(model[key], list) else model[key]))
@@ -784,6 +833,84 @@ def exact_stream(ctx, n_cases):
         if problems:
             ctx.violation(tree_key(c['spec']), '; '.join(problems)[:700], c)
         compare_tree(ctx, c, impl, ans)
+
+
+# ---------------------------------------------------------------------------
+# malformed stream: the constructor checks (`Impl.wf`, answer `err:wf`) against raising constructors
+
+def corrupt(rng, spec):
+    """Corrupt one node of a valid tree so that a constructor of the real code must raise; only
+    corruptions visible in the DIMENSIONS (the model's notion of a space) on rn(n) spaces.
+    Returns a description or None if the tree has no suitable node."""
+    nodes = [m for m in walk(spec)]
+    rng.shuffle(nodes)
+    for m in nodes:
+        k = m['k']
+        S, T = m['dom'], m['ran']
+        if k == 'sum' and isinstance(T, int) and isinstance(S, int):
+            how = rng.choice(['tmp_ran', 'tmp_dom', 'range', 'domain'])
+            if how == 'tmp_ran':
+                m['tr'], m['tr_bad'] = True, T + 1
+            elif how == 'tmp_dom':
+                m['td'], m['td_bad'] = True, S + 1
+            elif how == 'range':
+                m['r'] = gen_leaf(rng, S, T + 1)
+            else:
+                m['r'] = gen_leaf(rng, S + 1, T)
+            return 'sum/' + how
+        if k == 'comp' and isinstance(m['l']['dom'], int) and isinstance(S, int):
+            M = m['l']['dom']
+            how = rng.choice(['tmp', 'inner-range'])
+            if how == 'tmp':
+                m['tmp'], m['tmp_bad'] = True, M + 1
+            else:
+                m['r'] = gen_leaf(rng, S, M + 1)
+            return 'comp/' + how
+        if k == 'pprod' and isinstance(T, int) and isinstance(S, int):
+            m['r'] = gen_leaf(rng, S, T + 1)
+            return 'pprod/range'
+        if k == 'flvec' and isinstance(S, int):
+            m['op'] = gen_leaf(rng, S, 2)       # not a functional
+            return 'flvec/not-a-functional'
+        if k == 'lvec' and isinstance(S, int):
+            m['op'] = gen_leaf(rng, S, 'R')     # a functional: vector not in the range
+            return 'lvec/functional'
+    return None
+
+
+def malformed_stream(ctx, n_cases):
+    rng = ctx.rng
+    cases, lines = [], []
+    tries = 0
+    while len(cases) < n_cases and tries < 20 * n_cases:
+        tries += 1
+        c = gen_case(rng, rng.choice([1, 2, 2, 3]))
+        how = corrupt(rng, c['spec'])
+        if how is None:
+            continue
+        try:
+            line = 'deriv t={} x={} d={}'.format('|'.join(tokens(c['spec'])), fl(c['x']), fl(c['d']))
+        except Exception:  # noqa
+            continue
+        try:
+            op = build(c['spec'])
+            impl = 'constructed'
+            try:
+                op.derivative(elem(c['spec']['dom'], c['x']))
+            except Exception as e:  # noqa
+                impl = 'err:deriv {}'.format(type(e).__name__)
+        except Exception as e:  # noqa
+            impl = 'err:construct {}'.format(type(e).__name__)
+        cases.append((c, how, impl))
+        lines.append(line)
+    outs = core.run_driver('C06', lines)
+    for (c, how, impl), ans in zip(cases, outs):
+        ctx.case(('malformed', how))
+        ctx.hit('model/err:wf/' + how)
+        ctx.err(impl.split(' ')[0] + ('/' + impl.split(' ')[1] if ' ' in impl else ''))
+        if not (impl.startswith('err:construct') and ans == 'err:wf'):
+            ctx.disagree({'kind': 'malformed', 'how': how, 'tree': '|'.join(tokens(c['spec']))[:300]},
+                         impl, ans, stream='malformed')
 
 
 # ---------------------------------------------------------------------------
@@ -831,7 +958,7 @@ def run_mixed_case(c):
     except Exception as e:  # noqa
         return ['op(x) raised {}: {}'.format(type(e).__name__, str(e)[:200])], False
     with np.errstate(all='ignore'):
-        problems, D, Dd = oracle_on(op, x, d, exact_linear=False, tol=2e-6)
+        problems, D, Dd = oracle_on(op, x, d, exact_linear=False, tol=1e-7)
     nontrivial = Dd is not None and not op.is_linear and bool(np.any(flat(Dd) != 0))
     return problems, nontrivial
 
@@ -898,6 +1025,38 @@ def classes_with_derivative():
     return seen
 
 
+NO_GRADIENT_FUNCTIONALS = {
+    'Functional': 'abstract base', 'FunctionalDefaultConvexConjugate': 'no gradient implemented',
+    'InfimalConvolution': 'no gradient implemented', 'NuclearNorm': 'no gradient implemented',
+    'IndicatorBox': 'indicator, not differentiable', 'IndicatorGroupL1UnitBall': 'indicator',
+    'IndicatorLpUnitBall': 'indicator', 'IndicatorNonnegativity': 'indicator',
+    'IndicatorNuclearNormUnitBall': 'indicator', 'IndicatorSimplex': 'indicator',
+    'IndicatorSumConstraint': 'indicator', 'IndicatorZero': 'indicator',
+    'MoreauEnvelope': 'has no _call (cannot be evaluated, hence no central differences)'}
+
+
+def functional_classes():
+    """Names of all module-level Functional subclasses of the odl package (they all inherit
+    Functional.derivative = <., gradient(x)>), except the factory-made ufunc functionals, which
+    the zoo enumerates through UFUNCS."""
+    import importlib
+    import pkgutil
+    import odl
+    from odl.solvers.functional.functional import Functional
+    seen = set()
+    for mi in pkgutil.walk_packages(odl.__path__, 'odl.'):
+        if '.test' in mi.name or 'contrib' in mi.name or 'ufunc_ops' in mi.name:
+            continue
+        try:
+            mod = importlib.import_module(mi.name)
+        except Exception:  # noqa
+            continue
+        for nm, obj in vars(mod).items():
+            if isinstance(obj, type) and issubclass(obj, Functional) and obj.__module__ == mod.__name__:
+                seen.add(obj.__name__)
+    return seen
+
+
 def _pos(rng, n, lo=0.3, hi=2.0):
     return [rng.uniform(lo, hi) * rng.choice([1, 1, 1]) for _ in range(n)]
 
@@ -917,8 +1076,8 @@ def zoo(ctx):
     c2 = odl.cn(2)
     Z = []
 
-    def add(name, classes, make, tol=2e-6, rate=True):
-        Z.append((name, classes, make, tol, rate))
+    def add(name, classes, make, tol=1e-7, rate=True, allow_notimpl=False):
+        Z.append((name, classes, make, tol, rate, allow_notimpl))
 
     def el(sp, vals):
         return sp.element(vals)
@@ -1129,6 +1288,14 @@ def zoo(ctx):
         ('Functional*Operator', lambda sp: S.L2NormSquared(sp) * odl.MultiplyOperator(sp.element(_gen(rng, sp.size))), fgen),
         ('Functional+Functional', lambda sp: S.L2NormSquared(sp) + S.L2Norm(sp), fgen),
         ('Functional*vector', lambda sp: S.L2Norm(sp) * sp.element(_gen(rng, sp.size)), fgen),
+        ('FunctionalProduct', lambda sp: S.FunctionalProduct(S.L2NormSquared(sp), S.L2Norm(sp)), fgen),
+        ('FunctionalQuotient', lambda sp: S.FunctionalQuotient(S.L2NormSquared(sp), S.L2Norm(sp) + 1.5), fgen),
+        ('FunctionalScalarSum', lambda sp: S.L2Norm(sp) + 2.5, fgen),
+        ('KullbackLeiblerConvexConj', lambda sp: S.KullbackLeibler(sp, prior=sp.element(_pos(rng, sp.size))).convex_conj,
+         lambda sp: sp.element([rng.uniform(-1.0, 0.6) for _ in range(sp.size)])),
+        ('KullbackLeiblerCrossEntropyConvexConj',
+         lambda sp: S.KullbackLeiblerCrossEntropy(sp, prior=sp.element(_pos(rng, sp.size))).convex_conj,
+         lambda sp: sp.element([rng.uniform(-1.0, 1.0) for _ in range(sp.size)])),
         ('BregmanDistance', lambda sp: (lambda p: S.BregmanDistance(
             S.L2Norm(sp), p, S.L2Norm(sp).gradient(p)))(sp.element(_gen(rng, sp.size))), fgen),
     ]
@@ -1138,6 +1305,38 @@ def zoo(ctx):
                 continue
             add('Functional.derivative {} on {}'.format(fname, nm), ['Functional'],
                 lambda mkf=mkf, mkx=mkx, sp=sp: (mkf(sp), mkx(sp), fgen(sp)))
+    RR = odl.RealNumbers()
+    add('Functional.derivative IdentityFunctional(RealNumbers)', ['Functional'],
+        lambda: (S.IdentityFunctional(RR), rng.uniform(-2, 2), rng.uniform(-1, 1)))
+    add('Functional.derivative ScalingFunctional(RealNumbers, 2.5)', ['Functional'],
+        lambda: (S.ScalingFunctional(RR, 2.5), rng.uniform(-2, 2), rng.uniform(-1, 1)))
+    psf = odl.ProductSpace(r3, 2)
+    add('Functional.derivative SeparableSum(L2NormSquared, L2Norm)', ['Functional'],
+        lambda: (S.SeparableSum(S.L2NormSquared(r3), S.L2Norm(r3)),
+                 psf.element([_gen(rng, 3), _gen(rng, 3)]), psf.element([_gen(rng, 3), _gen(rng, 3)])))
+    add('Functional.derivative GroupL1Norm(rn(3)^2)', ['Functional'],
+        lambda: (S.GroupL1Norm(psf), psf.element([_gen(rng, 3), _gen(rng, 3)]),
+                 psf.element([_gen(rng, 3), _gen(rng, 3)])), allow_notimpl=True)
+    # ufunc FUNCTIONALS: odl.ufunc_ops.<name>() on RealNumbers() for every ufunc that has one
+    for name, nin, nout, _ in UFUNCS:
+        try:
+            getattr(uo, name)()
+        except Exception:  # noqa  (no functional variant: integer-only / binary / two outputs)
+            continue
+
+        def mkf(name=name):
+            f = getattr(uo, name)()
+            if name in pos_only or name in ('arccosh',):
+                x = rng.uniform(1.2, 2.0)
+            elif name in ('arcsin', 'arccos', 'arctanh'):
+                x = rng.uniform(-0.7, 0.7)
+            elif name == 'tan':
+                x = rng.uniform(-1.2, 1.2)
+            else:
+                x = rng.uniform(0.3, 2.0) * rng.choice([-1, 1])
+            return f, x, rng.uniform(0.3, 1.0) * rng.choice([-1, 1])
+        add('ufunc functional {}() on RealNumbers'.format(name), ['ufuncfunc:' + name], mkf,
+            allow_notimpl=True)
     # Hessian of the Rosenbrock functional and L1 gradient (classes defined inside properties)
     add('RosenbrockFunctional.gradient (Hessian)', ['RosenbrockGradient'],
         lambda: (S.RosenbrockFunctional(r3, scale=2.0).gradient, el(r3, _gen(rng, 3)), el(r3, _gen(rng, 3))))
@@ -1151,9 +1350,12 @@ def zoo(ctx):
     return Z
 
 
+ZOO_CLASSES_SEEN = set()
+
+
 def run_zoo_entry(entry, reps):
     """Returns list of (problems, nontrivial, replay-info)."""
-    name, classes, make, tol, rate = entry
+    name, classes, make, tol, rate, allow_notimpl = entry
     out = []
     for rep in range(reps):
         try:
@@ -1163,7 +1365,12 @@ def run_zoo_entry(entry, reps):
                         {'kind': 'zoo', 'name': name}))
             continue
         with np.errstate(all='ignore'):
-            problems, D, Dd = oracle_on(op, x, d, exact_linear=False, tol=tol, rate=rate)
+            problems, D, Dd = oracle_on(op, x, d, exact_linear=False, tol=tol, rate=rate,
+                                        allow_notimpl=allow_notimpl)
+        ZOO_CLASSES_SEEN.add(type(op).__name__)
+        if problems is NOT_PROVIDED:
+            out.append(([], False, {'kind': 'zoo', 'name': name, 'not_provided': True}))
+            continue
         nontrivial = Dd is not None and bool(np.any(flat(Dd) != 0)) and not op.is_linear
         info = {'kind': 'zoo', 'name': name, 'x': [float(v) for v in flat(x).tolist()],
                 'd': [float(v) for v in flat(d).tolist()]}
@@ -1184,6 +1391,8 @@ def zoo_stream(ctx, reps):
         for problems, nontrivial, info in run_zoo_entry(entry, reps):
             ctx.case(('zoo', name) if nontrivial else None)
             ctx.hit('oracle/zoo/' + classes[0])
+            if info.get('not_provided'):
+                ctx.hit('oracle/zoo-no-derivative-provided(NotImplementedError)/' + classes[0])
             if problems:
                 ctx.violation('zoo ' + name, '; '.join(problems)[:700], info)
         covered.update(classes)
@@ -1199,6 +1408,16 @@ def zoo_stream(ctx, reps):
         if cls in covered:
             continue
         missing.append('{}.{}'.format(mod, cls))
+    try:
+        fun_missing = sorted(c for c in functional_classes() if c not in ZOO_CLASSES_SEEN
+                             and c not in NO_GRADIENT_FUNCTIONALS)
+    except Exception as e:  # noqa
+        fun_missing = ['<introspection failed: {}>'.format(e)]
+    ctx.extra['functional_classes_without_zoo_instance'] = fun_missing
+    ctx.extra['functional_classes_no_gradient'] = NO_GRADIENT_FUNCTIONALS
+    if fun_missing:
+        ctx.notes.append('Functional subclasses (inheriting Functional.derivative) never instantiated in '
+                         'the zoo: ' + ', '.join(fun_missing))
     ctx.extra['classes_implementing_derivative'] = len(found)
     ctx.extra['classes_exempt'] = {k: v for k, v in EXEMPT.items() if k in found}
     ctx.extra['classes_without_zoo_entry'] = missing
@@ -1207,11 +1426,75 @@ def zoo_stream(ctx, reps):
 
 
 # ---------------------------------------------------------------------------
+# the generated (f, f') tables, evaluated by the driver at Float, against the VALUES of the code
+
+TABLE_FNS = ['sin', 'cos', 'tan', 'sqrt', 'square', 'log', 'exp', 'reciprocal', 'sinh', 'cosh']
+
+
+def table_stream(ctx, reps):
+    import odl
+    import odl.ufunc_ops as uo
+    rng = ctx.rng
+    r3 = odl.rn(3)
+    cases, lines = [], []
+    for name in TABLE_FNS:
+        for rep_ in range(reps):
+            if name in ('sqrt', 'log'):
+                ts = [rng.randint(3, 40) / 16.0 for _ in range(3)]
+            elif name == 'reciprocal':
+                ts = [rng.randint(3, 40) / 16.0 * rng.choice([-1, 1]) for _ in range(3)]
+            elif name == 'tan':
+                ts = [rng.randint(-20, 20) / 16.0 for _ in range(3)]
+            else:
+                ts = [rng.randint(-40, 40) / 16.0 for _ in range(3)]
+            # operator on rn(3): derivative table
+            try:
+                op = getattr(uo, name)(r3)
+                x = r3.element(ts)
+                with np.errstate(all='ignore'):
+                    fv = flat(op(x)).tolist()
+                    dv = flat(op.derivative(x)(r3.one())).tolist()
+                impl_d = list(zip(fv, dv))
+            except Exception as e:  # noqa
+                impl_d = 'err:{}: {}'.format(type(e).__name__, str(e)[:160])
+            for k, t in enumerate(ts):
+                cases.append(('deriv', name, t, impl_d if isinstance(impl_d, str) else impl_d[k]))
+                lines.append('ufunc tbl=deriv name={} t={}'.format(name, fs(t)))
+            # functional on RealNumbers: gradient table
+            for t in ts[:2]:
+                try:
+                    f = getattr(uo, name)()
+                    with np.errstate(all='ignore'):
+                        impl_g = (float(f(t)), float(f.derivative(t)(1.0)))
+                except Exception as e:  # noqa
+                    impl_g = 'err:{}: {}'.format(type(e).__name__, str(e)[:160])
+                cases.append(('grad', name, t, impl_g))
+                lines.append('ufunc tbl=grad name={} t={}'.format(name, fs(t)))
+    outs = core.run_driver('C06', lines)
+    for (tbl, name, t, impl), ans in zip(cases, outs):
+        desc = {'kind': 'ufunc-table', 'table': tbl, 'name': name, 't': t}
+        ctx.case(('table', tbl, name))
+        ctx.hit('table/{}/{}'.format(tbl, name))
+        if isinstance(impl, str):
+            ctx.disagree(desc, impl, ans, stream='ufunc-table')
+            ctx.violation('ufunc {} {} raised'.format('operator' if tbl == 'deriv' else 'functional', name),
+                          impl, desc)
+            continue
+        if not ans.startswith('ok '):
+            ctx.disagree(desc, impl, ans, stream='ufunc-table')
+            continue
+        fld = dict(tok.split('=', 1) for tok in ans.split()[1:])
+        mf, md = float(core.pfrac(fld['f'])), float(core.pfrac(fld['d']))
+        for what, a, b in (('f', impl[0], mf), ('fprime', impl[1], md)):
+            if not (abs(a - b) <= 1e-13 * max(abs(a), abs(b)) + 1e-300):
+                ctx.disagree(desc, '{}={!r}'.format(what, a), '{}={!r}'.format(what, b), stream='ufunc-table')
+                break
+
 
 def regenerate(ctx):
     from extract import ufunc_deriv
     changed = ufunc_deriv.regenerate()
-    return [('extract(ufunc_ops.derivative_factory -> Gen/UfuncDeriv.lean)', True,
+    return [('extract(ufunc_ops.derivative_factory + gradient_factory -> Gen/UfuncDeriv.lean)', True,
              'regenerated' if changed else 'unchanged')]
 
 
@@ -1246,6 +1529,8 @@ def run(ctx):
             ctx.violation(tree_key(c['spec']) + ' tmp_ran={} tmp_dom={}'.format(
                 c['spec']['tr'], c['spec']['td']), '; '.join(problems)[:700], c)
         compare_tree(ctx, c, impl, ans)
+    table_stream(ctx, 2 if quick else 12)
+    malformed_stream(ctx, 150 if quick else 1500)
     exact_stream(ctx, 1500 if quick else 20000)
     mixed_stream(ctx, 300 if quick else 4000)
     zoo_stream(ctx, 3 if quick else 25)
